@@ -56,6 +56,31 @@ def run(prop, verbose=False):
                     print(c.stdout[-3000:])
         finally:
             shutil.rmtree(d, ignore_errors=True)
+    # reverted 'fix:' commits (selftest/mutants/index.json, rebuilt by tool/mutant_index.py)
+    idxp = os.path.join(VERIF, "selftest", "mutants", "index.json")
+    if os.path.exists(idxp):
+        with open(idxp) as fh:
+            idx = json.load(fh)
+        for name, det in sorted(idx.items()):
+            exp = det.get(prop)
+            if not exp or exp == ["BROKEN"]:
+                continue
+            d = _scratch_copy()
+            try:
+                p = subprocess.run(["patch", "-p1", "-s", "-f", "-d", d, "-i", os.path.join(VERIF, "selftest", "mutants", name)],
+                                   stdout=subprocess.PIPE, stderr=subprocess.STDOUT, text=True)
+                if p.returncode != 0:
+                    results.append("%s: skipped (patch no longer applies)" % name[:40])
+                    continue
+                c = subprocess.run([sys.executable, os.path.join(VERIF, "check"), prop, "--repo", d, "--tier", "quick", "--no-evidence"],
+                                   stdout=subprocess.PIPE, stderr=subprocess.STDOUT, text=True)
+                rules_hit = sorted({ln.split()[1] for ln in c.stdout.splitlines() if ln.strip().startswith("rule ")})
+                good = c.returncode == 1 and any(r in rules_hit for r in exp)
+                results.append("revert-%s: %s (rules %s)" % (name[:7], "detected" if good else "MISSED", rules_hit))
+                if not good:
+                    ok = False
+            finally:
+                shutil.rmtree(d, ignore_errors=True)
     if not results:
         return {"ok": True, "summary": "no stored variants for %s" % prop}
     return {"ok": ok, "summary": "; ".join(results)}
